@@ -52,7 +52,9 @@ type Session struct {
 	HoldSpace  bool           `json:"hold_space"`
 	// Poll: the transport's Read returns an empty slice (no error) when nothing is pending, as the
 	// transport interface allows, instead of blocking.
-	Poll bool       `json:"poll,omitempty"`
+	Poll bool `json:"poll,omitempty"`
+	// Huge: the first command's output holds one line of 65 536..70 000 bytes.
+	Huge bool       `json:"huge,omitempty"`
 	Seg  devsim.Seg `json:"seg"`
 }
 
@@ -150,7 +152,8 @@ func genOutput(r *rand.Rand, nl, prompt string, big bool) (toks []devsim.Token, 
 				line = "  " + line
 			}
 			if r.Intn(12) == 0 {
-				line += "é→ü" // multi-byte
+				// multi-byte, some with 0x9b as a continuation byte (c4 9b, c5 9b, d0 9b, c3 9b)
+				line += []string{"é→ü", "Město ěś", "ЛÛ done"}[r.Intn(3)]
 			}
 			// escape sequence in the middle / at the end of a line
 			if r.Intn(6) == 0 && len(line) > 2 {
@@ -231,11 +234,28 @@ func GenSession(r *rand.Rand, tier string) (Session, int) {
 	}
 	n := 1 + r.Intn(8)
 	big := r.Intn(15) == 0
+	s.Huge = !big && r.Intn(25) == 0
 	terms := r.Perm(len(termChars))
 	maxCmd := 0
 	for i := 0; i < n; i++ {
 		out, l, rej := genOutput(r, s.NL, s.Prompt, big && i == 0)
 		rejected += rej
+		if s.Huge && i == 0 {
+			// one very long line (no white space or prompt characters in it: nothing in it can look like a prompt)
+			hl := 65536 + r.Intn(4465)
+			huge := []devsim.Token{devsim.T(randStr(r, "abcdefghijklmnopqrstuvwxyzABCDEFGHIJKLMNOPQRSTUVWXYZ0123456789-_/.:,", hl)), devsim.T(s.NL)}
+			k := 0
+			if len(out) > 0 {
+				k = r.Intn(len(out) + 1)
+				for k < len(out) && !(k == 0 || (out[k-1].Kind == "text" && out[k-1].S == s.NL)) {
+					k++
+				}
+			}
+			out = append(append(append([]devsim.Token{}, out[:k]...), huge...), out[k:]...)
+			if hl > l {
+				l = hl
+			}
+		}
 		if l > longest {
 			longest = l
 		}
@@ -285,6 +305,12 @@ func GenSession(r *rand.Rand, tier string) (Session, int) {
 		s.ReadSize = 8192
 		s.Seg.Mode = "mix"
 		s.Seg.Size = 100
+	}
+	if s.Huge {
+		s.ReadSize = 8192
+		s.Seg = devsim.Seg{Mode: []string{"whole", "fixed"}[r.Intn(2)], Size: 4096, Seed: s.Seg.Seed}
+		s.ReadDelay = []int{0, 50}[r.Intn(2)]
+		s.Poll = false
 	}
 	// wrap overhead must keep the wrapped echo inside the input-dependent window
 	if s.WrapEvery > 0 {
@@ -632,6 +658,9 @@ func RunSession(s Session, h *Hooks) mon.Result {
 	}
 	if s.Poll {
 		obs["sessions_with_empty_transport_reads"]++
+	}
+	if s.Huge {
+		obs["sessions_with_a_line_of_64KiB_or_more"]++
 	}
 	if s.API == "file" {
 		obs["command_file_sessions"]++
